@@ -477,7 +477,8 @@ func runC04(c *Ctx) {
 				reach := PathQ{Goal: instrPred(removeSubP)}.From(del)
 				c.Check("C04.R5", del, "connect finalize: hub removal reachable after dropping the reservation", reach != nil, "the hub entry of a dropped connect-time subscription would leak")
 			default:
-				bad := PathQ{Stop: w.wrapMust(removeSubP, 2), Goal: isReturn}.From(del)
+				// (a delete inside an extracted critical-section helper is followed up at the helper's call site)
+				bad := w.mustPassUp(del, PathQ{Stop: w.wrapMust(removeSubP, 2), Goal: isReturn}, 1)
 				d := "the connection stops reporting the channel while its routing entry stays in the hub (publications keep arriving; the entry survives close)"
 				if bad != nil {
 					d += " (return at " + w.InstrPos(bad) + " reached without Node.removeSubscription)"
